@@ -78,6 +78,12 @@ def fromAttrs (tag : String) (attrs : List (String × String)) : Except PyErr Sh
         let fv ← coerce ty v
         r := r.set n fv
     | none => pure ()
+  -- a rect with both radii given and one of them zero has square corners (only a missing radius is copied)
+  let given := fun (n : String) => match Style.getKV attrs n with
+    | some v => !(Str.strip v.toList).isEmpty
+    | none => false
+  if tag == "rect" && given "rx" && given "ry" && (r.getF "rx" == 0 || r.getF "ry" == 0) then
+    r := (r.set "rx" (.f 0.0)).set "ry" (.f 0.0)
   pure (postInit r)
 
 /-- `apply_style_attribute`: declarations whose property is a field of this dataclass are
